@@ -86,6 +86,77 @@ class HybridInner(AutoSerialize, torch.nn.Module):
         super().__init__()
 
 
+# ---- classes with hooks that the loader (or the pickler) runs, used for re-entrant loads / saves ----
+HOOKS_ENABLED = [True]  # builders switch the hooks off while they construct the in-memory graph
+
+
+def _run_companion_hook(obj):
+    """`companion` = ["load", path] : load that archive and keep it as `loaded`;
+       `companion` = ["save", path, store] : save a small fixed object there (a save inside a load)."""
+    spec = obj.__dict__.get("companion")
+    if not HOOKS_ENABLED[0] or not isinstance(spec, (list, tuple)) or not spec:
+        return
+    if spec[0] == "load":
+        object.__setattr__(obj, "loaded", q_load(spec[1]))
+    elif spec[0] == "save":
+        side = NodeC()
+        side.v = "written by a hook"
+        side.arr = np.arange(4, dtype=np.int16)
+        with contextlib.redirect_stdout(io.StringIO()):
+            side.save(spec[1], store=spec[2], mode="o")
+
+
+class HookedPostInit(AutoSerialize):
+    """`__attrs_post_init__`: the one construction hook load() calls on any class that defines it."""
+
+    def __attrs_post_init__(self):
+        _run_companion_hook(self)
+
+
+class HookedSetattr(AutoSerialize):
+    """`__setattr__`: load() restores every attribute through setattr, so this runs in the MIDDLE of the object's restore."""
+
+    def __setattr__(self, name, value):
+        object.__setattr__(self, name, value)
+        if name == "companion":
+            _run_companion_hook(self)
+
+
+class PickleHook:
+    """A plain object (dill fallback): `__setstate__` runs inside load(), `__getstate__` inside save()."""
+
+    def __init__(self, companion=None, tag="p"):
+        self.companion = companion
+        self.tag = tag
+
+    def __getstate__(self):
+        if HOOKS_ENABLED[0] and self.companion and self.companion[0] == "save_on_getstate":
+            side = NodeC()
+            side.v = "written by __getstate__"
+            side.arr = np.arange(4, dtype=np.int16)
+            with contextlib.redirect_stdout(io.StringIO()):
+                side.save(self.companion[1], store=self.companion[2], mode="o")
+        return dict(self.__dict__)
+
+    def __setstate__(self, state):
+        self.__dict__.update(state)
+        if HOOKS_ENABLED[0] and self.companion and self.companion[0] == "load":
+            self.loaded = q_load(self.companion[1])
+
+    def __eq__(self, other):
+        return type(other) is type(self) and self.tag == other.tag and list(self.companion or []) == list(other.companion or [])
+
+    def __hash__(self):
+        return hash(self.tag)
+
+
+class RefusesPickling:
+    """An unsaveable leaf: its __getstate__ raises."""
+
+    def __getstate__(self):
+        raise RuntimeError("this object refuses to be pickled")
+
+
 class HybridRoot(AutoSerialize, torch.nn.Module):
     """A ROOT that is both AutoSerialize and torch.nn.Module (the pattern of the ptychography object / probe models):
     parameters, buffers and sub-modules live in _parameters / _buffers / _modules, not in the instance dict."""
@@ -111,7 +182,7 @@ except Exception:  # pragma: no cover
     AttrsRoot = None
 
 
-CLASSES = {c.__name__: c for c in (Root, NodeA, NodeB, NodeC, Old, Top, Mid, Inner, HybridInner, HybridRoot)}
+CLASSES = {c.__name__: c for c in (Root, NodeA, NodeB, NodeC, Old, Top, Mid, Inner, HybridInner, HybridRoot, HookedPostInit, HookedSetattr)}
 
 
 # ============================================================================= 2. leaf alphabet
